@@ -64,7 +64,7 @@ KwVal(call, n) == call.kw[KwValue(call, n)][2]
 (*    vals|-> sequence of <<type, value>> pairs to type-check, where value *)
 (*            "default" stands for an omitted/skipped defaulted parameter] *)
 (***************************************************************************)
-NoBinding == [ok |-> FALSE, pos |-> <<>>, kw |-> {}, vals |-> <<>>, lazy |-> {}]
+NoBinding == [ok |-> FALSE, pos |-> <<>>, kw |-> {}, vals |-> <<>>, lazy |-> {}, kwok |-> FALSE]
 MapArgs(o, call0) ==
     LET call == CallFor(o, call0)
         args == FullArgs(call)
@@ -83,6 +83,9 @@ MapArgs(o, call0) ==
     IN IF bad THEN NoBinding
        ELSE [ok |-> TRUE, pos  |-> [i \in 1..Len(args) |-> IF i <= n THEN vis[i].ty ELSE o.star],
              kw   |-> {<<vis[i].name, vis[i].ty>> : i \in {j \in 1..n : how(j) = "kw"}},
+             \* an overload may carry a keyword-only parameter that no call of the fragment passes: its default is type-checked like
+             \* any other value, so an overload whose default does not fit its own declaration (o.kwbad) never matches
+             kwok |-> ~o.kwbad,
              \* which arguments stay unevaluated: positions (given or skipped) and keywords bound to a lazy parameter
              lazy |-> {<<"p", i>> : i \in {j \in 1..n : j <= Len(args) /\ vis[j].ty = "Lazy"}}
                         \cup {<<"k", vis[i].name>> : i \in {j \in 1..n : how(j) = "kw" /\ vis[j].ty = "Lazy"}},
@@ -95,7 +98,7 @@ MapArgs(o, call0) ==
                             IN <<vis[k].ty, KwVal(call, vis[k].name)>>]]
 
 \* Step "filter by argument types" (get_delegate's checked()): defaults always fit
-TypesFit(b) == \A i \in 1..Len(b.vals) : b.vals[i][2] = "default" \/ Accepts(b.vals[i][1], b.vals[i][2])
+TypesFit(b) == b.kwok /\ \A i \in 1..Len(b.vals) : b.vals[i][2] = "default" \/ Accepts(b.vals[i][1], b.vals[i][2])
 
 \* binding b1 is more specific than b2 (runner._is_specialization_of)
 KwType(b, n) == (CHOOSE x \in b.kw : x[1] = n)[2]
